@@ -254,6 +254,12 @@ static void ple_case(const vh_args_t *a, int op, int big) {
   } else if (a->tier == 0 && (long)m * n > 260L * 200) { if (m > n) m = m / 2 + 1; else n = n / 2 + 1; }
   mzd_t *A = vh_mk(m, n, -1);
   vh_fill_profile(A, big ? ((bigshape == 3 || bigshape == 4 || bigshape >= 6) && vh_randint(0, 2) ? 9 : vh_pick((int[]){0, 1, 1, 2, 3, 3, 8}, 7)) : pick_style());
+  /* trailing zero rows (the factorisation routines cut them off first and must still define P for them) */
+  if (vh_randint(0, 2) == 0 && m > 8) {
+    int t = vh_randint(1, 6);
+    for (int i = m - t; i < m; i++)
+      for (int j = 0; j < n; j++) if ((A->data[(size_t)i * A->rowstride + j / 64] >> (j % 64)) & 1) mzd_write_bit(A, i, j, 0);
+  }
   mzp_t *P = mzp_init(m), *Q = mzp_init(n);
   junk_perm(P); junk_perm(Q);
   static const int cuts[] = {0, 0, 64, 128, 512};
